@@ -3,6 +3,7 @@
 From Coq Require Import ZArith List Bool.
 From RP Require Import Gen.StatesTables States.Model States.Proofs States.Inst.
 From RP Require Import AgentCause.Model AgentCause.Proofs.
+From RP Require PilotLaunch.Model PilotLaunch.Proofs PilotLaunch.Oracle.
 Import ListNotations.
 Open Scope Z_scope.
 
@@ -92,3 +93,48 @@ Example C14_cause_nonvacuous :
   agent_final [CancelPilots true; Terminate] = F_CANCELED /\
   agent_final [Lifetime false true; CancelPilots false] = F_FAILED.
 Proof. vm_compute. auto. Qed.
+
+(* part c: the launching component of the pilot manager.  A bulk of pilots is
+   sorted into buckets by (resource, access schema) and every bucket is launched
+   on its own; the pilots of a bucket whose launch raises are advanced FAILED. *)
+Module LaunchSide.
+Import PilotLaunch.Model PilotLaunch.Proofs PilotLaunch.Oracle.
+
+(* For every bulk (pilot uids distinct), every set of cancel requests seen
+   before and every choice of buckets whose launch fails: a pilot of the bulk
+   is told exactly CANCELED (a cancel request was seen), or PMGR_LAUNCHING and
+   then PMGR_ACTIVE_PENDING or FAILED -- decided by ITS OWN bucket alone. *)
+Theorem C14_launch_per_pilot :
+  forall (cancelled : list Z) (fails : Z -> Z -> bool) (ps : list lp) (p : lp),
+    NoDup (uids ps) -> In p ps ->
+    proj (lp_uid p) (work cancelled fails ps) =
+      if zmem (lp_uid p) cancelled then [LCanceled]
+      else [LLaunching; bucket_state fails (lp_res p) (lp_sch p)].
+Proof. exact work_per_pilot. Qed.
+Print Assumptions C14_launch_per_pilot.
+
+Theorem C14_launch_failed_iff_own_bucket :
+  forall (cancelled : list Z) (fails : Z -> Z -> bool) (ps : list lp) (p : lp),
+    NoDup (uids ps) -> In p ps ->
+    (In LFailed (proj (lp_uid p) (work cancelled fails ps)) <->
+     zmem (lp_uid p) cancelled = false /\ fails (lp_res p) (lp_sch p) = true).
+Proof. exact failed_iff_own_bucket. Qed.
+Print Assumptions C14_launch_failed_iff_own_bucket.
+
+(* the failure of another bucket of the bulk changes nothing for a pilot *)
+Theorem C14_launch_independent_of_other_buckets :
+  forall (cancelled : list Z) (f1 f2 : Z -> Z -> bool) (ps : list lp) (p : lp),
+    NoDup (uids ps) -> In p ps -> f1 (lp_res p) (lp_sch p) = f2 (lp_res p) (lp_sch p) ->
+    proj (lp_uid p) (work cancelled f1 ps) = proj (lp_uid p) (work cancelled f2 ps).
+Proof. exact independent_of_other_buckets. Qed.
+Print Assumptions C14_launch_independent_of_other_buckets.
+
+Example C14_launch_nonvacuous :
+  let ps := [mkLP 1 10 0; mkLP 2 11 0; mkLP 3 10 1; mkLP 4 10 0; mkLP 5 11 0] in
+  work [4] (fails_of [(11, 0)]) ps =
+    [([4], LCanceled); ([1; 2; 3; 5], LLaunching);
+     ([1], LActivePending); ([3], LActivePending); ([2; 5], LFailed)]
+  /\ NoDup (uids ps).
+Proof. split; [vm_compute; reflexivity|]. repeat constructor; simpl; intuition discriminate. Qed.
+End LaunchSide.
+
